@@ -63,7 +63,7 @@ def run(ctx):
     ctx.proof_step(PROPS_FILE)
     n = 40 if ctx.tier == "quick" else 500
     sysm = []
-    sysm += c06.systematic()[::3] + c04.systematic()[::9] + c05.e2e_systematic(ctx)[::7] + c05.e2e_fractional() + [r for r in c08.systematic()[::4]] + [x[0] for x in c09.systematic()[::5]]
+    sysm += c06.systematic()[::3] + [x for x in c06.systematic() if '%' in json.dumps(x)] + c04.systematic()[::9] + c05.e2e_systematic(ctx)[::7] + c05.e2e_fractional() + [r for r in c08.systematic()[::4]] + [x[0] for x in c09.systematic()[::5]]
     for s in sysm:
         strip_numeric_enums(s)
     base = build_cases(ctx, len(sysm) + n, None, CLASSES, "c17x", extra_schemas=sysm, docs_per=2,
